@@ -420,11 +420,10 @@ func checkBackgroundStart(p *Prog, r *Report, rule string) {
 		n++
 		matched, extra := false, ""
 		for _, gd := range guardsOf(in.Block()) {
-			b, isB := gd.If.Cond.(*ssa.BinOp)
 			okG := false
-			if isB && (b.Op == token.EQL || b.Op == token.NEQ) {
-				if _, fn, _, isF := loadedField(b.X); isF && fn == "CollectorProtocol" {
-					if sv, isS := constString(b.Y); isS && sv == want && ((b.Op == token.EQL && gd.Succ == 0) || (b.Op == token.NEQ && gd.Succ == 1)) {
+			for _, cf := range cmpForms(gd.If.Cond) {
+				if _, fn, _, isF := loadedField(cf.X); isF && fn == "CollectorProtocol" && cf.Op == token.EQL {
+					if sv, isS := constString(cf.Y); isS && sv == want && gd.Succ == cf.Succ {
 						okG = true
 					}
 				}
